@@ -234,3 +234,59 @@ func VerifC11Long() {
 	vRunPending()
 	vReach("end")
 }
+
+// VerifC11Many: a text that splits into more pieces than the output queue holds (32), sent to a
+// peer that reads nothing until the call has got as far as it can; Config.Timeout 0 or the
+// default. Every piece arrives, in order, and the pieces join to the text.
+func VerifC11Many() {
+	vSetOpt("symIndex", 1)
+	S := 13
+	np := vParam("PIECES", 40)
+	msg := vFiller('a', (S-3)*np-4) + vGenText("tail", 2)
+	cfg := NewConfig("me")
+	cfg.Server, cfg.Proxy = "srv:1", "vtest://proxy"
+	cfg.PingFreq = 0
+	cfg.SplitLen = S
+	cfg.Flood = true
+	if vLen("timeout0", 0, 1) == 1 {
+		cfg.Timeout = 0 // "wait indefinitely"
+	}
+	w := vNewLiveWire()
+	w.writeGate = make(chan struct{}, np+16)
+	w.writeGate <- struct{}{} // NICK
+	w.writeGate <- struct{}{} // USER
+	vInstallDialer(&vDialer{wire: w})
+	conn := Client(cfg)
+	err := conn.Connect()
+	vAssume(err == nil)
+	vRunPending()
+	before := len(w.written)
+	done := false
+	go func() { conn.Privmsg("#c", msg); done = true }()
+	vRunPending() // the queue is full, the sender is stuck in the socket write, the caller waits
+	for i := 0; i < np+8; i++ {
+		w.writeGate <- struct{}{} // the peer reads again
+	}
+	vRunPending()
+	vAssert(done, "many:call-returned")
+	all := ""
+	for _, x := range w.written[before:] {
+		all += x
+	}
+	lines, ok := vSplitLines(all)
+	vAssert(ok, "wire-frame")
+	prefix := "PRIVMSG #c :"
+	var pieces []string
+	for _, l := range lines {
+		ok := len(l) >= len(prefix) && l[:len(prefix)] == prefix
+		vAssert(ok, "wire-frame")
+		if !ok {
+			return
+		}
+		pieces = append(pieces, l[len(prefix):])
+	}
+	vCheckPieces(msg, pieces, S)
+	conn.Close()
+	vRunPending()
+	vReach("end")
+}
